@@ -133,7 +133,7 @@ OPS = ["+", "-", "*", "/"]
 def member_forms(nprev, depth):
     """Value forms for a member with nprev earlier members.  'L' = fresh literal, 'E<i>' = earlier
     member i.  Returns list of token lists."""
-    forms = [None, ["L"], ["-", "L"]]
+    forms = [None, ["L"], ["-", "L"], ["+", "L"]]
     atoms = [["L"]] + [["E%d" % i] for i in range(nprev)]
     if depth >= 1:
         for i in range(nprev):
@@ -158,6 +158,7 @@ def member_forms(nprev, depth):
         # a literal spelled with a leading zero is octal in C++ (and C); Fortran reads the same digits as decimal
         forms.append(["O"])
         forms.append(["O", "*", "L"])
+        forms.append(["-", "O"])
         for i in range(nprev):
             forms.append(["E%d" % i, "+", "O"])
     if depth >= 2:
